@@ -3,6 +3,8 @@ CONSTANTS
   PWSeq <- PW3
   HAlgs = {"rc4_40", "rc4_128", "aes_128", "aes_256", "aes_256_r6"}
   DeepAlgs = {"rc4_40", "rc4_128", "aes_128", "aes_256", "aes_256_r6"}
+  Reals = {0, 1, 2, 3, 4, 5, 6}
+  RealLen = 2
   MaxLen = 3
   ProbeAll = TRUE
   Emit = TRUE
